@@ -624,6 +624,14 @@ def expected_paths(d, b, e, frames, w):
     return [d + b + py_zfill(f, w) + e for f in frames]
 
 
+PATH_CAP = 2000
+
+
+def inner_paths(ps, nframes):
+    """the drivers print Index(-1 .. min(len, PATH_CAP)); returns the paths of indices 0 .. min(len,cap)-1"""
+    return ps[1:1 + min(nframes, PATH_CAP)]
+
+
 # ------------------------------------------------------------------ C03
 
 def c03_cases(rng, tier):
@@ -796,23 +804,23 @@ def parse_range_py(s):
         mm = re.fullmatch(r'(-?\d+)(?:-(-?\d+)(?:([:xy])(-?\d+))?)?', part, re.ASCII)
         if not mm:
             return None
-        a = int(mm.group(1))
-        nums = [a]
+        nums = [int(g) for g in (mm.group(1), mm.group(2), mm.group(4)) if g is not None]
+        if any(x >= 2 ** 63 or x < -2 ** 63 for x in nums):
+            return None
+        a = nums[0]
         if mm.group(2) is None:
             frames.append(a)
             continue
-        b = int(mm.group(2))
-        nums.append(b)
+        b = nums[1]
+        if abs(b - a) > 200000:
+            raise ValueError('range too large for the oracle')
         if mm.group(3) is None:
             frames += walk_dir(a, b, 1)
         else:
-            n = int(mm.group(4))
-            nums.append(n)
+            n = nums[2]
             if n == 0:
                 return None
             frames += expand_comp(a, b, mm.group(3), n)
-        if any(abs(x) >= 2 ** 63 for x in nums):
-            return None
     return dedup_first(frames)
 
 
@@ -893,7 +901,7 @@ def c12_oracle(c, impl_line):
         f.append('String() = %r, components give %r' % (dec(main, 'string'), s_exp))
     ps = [unhx(x).decode('latin-1') for x in main['paths'].split(',')]
     if frames is not None:
-        if ps[1:-1] != expected_paths(d, b, e, frames, w):
+        if inner_paths(ps, len(frames)) != expected_paths(d, b, e, frames, w)[:PATH_CAP]:
             f.append('frame paths do not follow the current components')
     else:
         if any(x != s_exp for x in ps):
@@ -920,7 +928,7 @@ def c12_oracle(c, impl_line):
                         f.append('Split part differs in %s' % k)
                         break
                 allp += [y for y in x['paths'].split(',')][1:-1]
-            if dedup_first(allp) != main['paths'].split(',')[1:-1]:
+            if len(frames) <= PATH_CAP and dedup_first(allp) != main['paths'].split(',')[1:-1]:
                 f.append('Split parts do not concatenate to the original frame paths')
     return f
 
